@@ -195,7 +195,7 @@ CLAIMED["C04"] = dict(
     design="§5 C04, §7", technique="Lean 4 inductive invariant over a heap with reference counting + trace acceptance + monitors",
     note="Same trusted base as C03.")
 
-PENDING = {}
+PENDING = {"C15": "the model (M2 Composite), its tie to signals.py and a monitor for pending OR hooks exist, but the invariant that every hook is covered by a registered, pending or running cleanup is not proved yet; no proof is claimed until the theorem exists (DESIGN.md section 10)"}
 
 
 def main():
